@@ -155,6 +155,12 @@ theorem igd_aliases_resolvable :
 theorem igd_families_covered :
     familiesCovered Gen.C20Igd.igdServiceTypes Gen.C20Igd.igdOps = true := by decide
 
+/-- every facade operation asks for **its** action: the (method, action) pairs read from the source
+    are the hand-written table of `Spec/C20.lean` (swapping `RequestConnection` for
+    `ForceTermination` in the source breaks this theorem, and the judge on the posted action) -/
+theorem igd_ops_actions :
+    Gen.C20Igd.igdOps.map (fun r => (r.method, r.action)) = specOps := by decide
+
 /-- **Routing of the IGD facade as it is in the source now**: for every standard gateway tree,
     every iteration order of the alias sets and every one of the facade's operations. -/
 theorem igd_routing_spec (ord : List S → List S) (hord : ∀ l x, x ∈ ord l ↔ x ∈ l) (d : Dev)
@@ -263,7 +269,7 @@ theorem series_spec_gen (ins : List (Int × Readings)) : ∀ (st : IgdSt), incre
     constructed profile: the model's sequence of results satisfies the judge `seriesOk` — totals
     non-negative, each rate absent (first sample, wrap, missing or failed reading now or before)
     or the non-negative difference over the elapsed time (bytes in KiB), every failure confined
-    to its own field, and the call raising exactly when all six readings failed. -/
+    to its own field, and a raise only when all six readings failed. -/
 theorem series_spec (t0 : Int) (ins : List (Int × Readings)) (hinc : increasing t0 ins)
     (hr : ∀ x ∈ ins, inRangeR x.2) :
     seriesOk ⟨t0, .none, .none, .none, .none⟩ ins (runSeries { tLast := t0 } ins) = true :=
